@@ -60,3 +60,23 @@ func ptrIndex[T any](p *T, s []T) int {
 	return -1
 }
 func ptrAt[T any](s []T, k int) *T { return &s[k] }
+
+// same(a, b): a and b are the same value (logical equality, also for types Go
+// cannot compare with ==). Executable rendering: identical copies compare equal.
+func same[T any](a, b T) bool { return verifSame(a, b) }
+
+// --- ghost state -------------------------------------------------------------
+
+// traceT: the sequence of dynamic calls (filters, route functions, handlers,
+// callbacks) made directly by the current activation and by contracted callees.
+type traceT struct{ n int }
+
+func calls() traceT { return traceT{} }
+
+// traceCall(t, f, a0, a1, a2): t extended by one call of f with these arguments.
+func traceCall[F any](t traceT, f F, a0, a1, a2 interface{}) traceT { return traceT{t.n + 1} }
+
+// ghostInt / ghostIface: per-object ghost fields maintained by the assumed
+// contracts of interface methods (e.g. bytes accepted by a writer).
+func ghostInt(name string, key interface{}) int           { return 0 }
+func ghostIface(name string, key interface{}) interface{} { return nil }
